@@ -140,11 +140,20 @@ fn c04() {
         add(json!({"mode": "after-shutdown", "n": n, "pb": pb}));
         add(json!({"mode": "after-shutdown", "n": n, "boxed": true, "pb": pb}));
     }
+    // a request made on the live queue, still pending while the writer shuts down
+    for n in 1..=2 {
+        add(json!({"mode": "during-shutdown", "n": n, "cap": 8, "pb": pb}));
+    }
+    add(json!({"mode": "during-shutdown", "n": 1, "cap": 8, "boxed": true, "pb": pb}));
+    add(json!({"mode": "during-shutdown", "n": 2, "cap": 1, "pb": pb}));
+    for k in 0..tier.pick(4, 10) {
+        add(json!({"mode": "during-shutdown", "n": 1, "cap": 8, "jump_k": k, "pb": pb}));
+    }
     for k in 0..tier.pick(10, 20) {
         add(json!({"mode": "self", "n": 2, "after": 1, "cap": 8, "jump_k": k, "pb": pb}));
         add(json!({"mode": "separate", "n": 1, "flushers": 1, "cap": 8, "jump_k": k, "pb": pb}));
     }
-    finish(rep, jobs, "Every schedule (DPOR, preemption bound) of appends and flush requests (same thread, separate threads, two requesters, after shutdown, capacities 1/2/8, clock jump at every early clock read) against the real writer thread; the stream log is snapshotted inside the waker at the instant the flush future is completed and must already contain every entry appended before the request (or it was displaced) followed by a stream flush. A flush that never completes is a loom deadlock report.");
+    finish(rep, jobs, "Every schedule (DPOR, preemption bound) of appends and flush requests (same thread, separate threads, two requesters, after shutdown, pending across the writer's shutdown, capacities 1/2/8, clock jump at every early clock read) against the real writer thread; the stream log is snapshotted inside the waker at the instant the flush future is completed and must already contain every entry appended before the request (or it was displaced) followed by a stream flush. A flush that never completes is a loom deadlock report.");
 }
 
 fn c05() {
@@ -164,6 +173,12 @@ fn c05() {
     }
     jobs.push(Job { harness: "c05_drop", cfg: json!({"main_n": 2, "prod_n": 1, "boxed": true, "flush_first": true, "clone_drop": true, "pb": pb}) });
     jobs.push(Job { harness: "c05_drop", cfg: json!({"main_n": 1, "prod_n": 1, "flush_first": true, "pb": pb}) });
+    // the handle is dropped by the unwinding of its owner's panic
+    for boxed in [false, true] {
+        for late_n in 0..=2 {
+            jobs.push(Job { harness: "c05_drop", cfg: json!({"main_n": 1, "prod_n": 0, "late_n": late_n, "boxed": boxed, "unwinding": true, "pb": 0}) });
+        }
+    }
     for k in 0..tier.pick(8, 16) {
         // periodic-flush deadline (2 s) or the 30 s shutdown timeout expiring at the k-th clock read
         jobs.push(Job { harness: "c05_drop", cfg: json!({"main_n": 1, "prod_n": 1, "jump_k": k, "jump_secs": 2, "pb": pb}) });
@@ -177,7 +192,7 @@ fn c05() {
     for boxed in [false, true] {
         jobs.push(Job { harness: "c05_forget", cfg: json!({"main_n": 1, "prod_n": 1, "boxed": boxed, "concurrent_drop": true, "pb": pb}) });
     }
-    finish(rep, jobs, "Histories of append / clone / drop-clone / flush / drop-handle / shut_down / forget on typed and boxed queues with a producer thread racing the shutdown, all schedules within the preemption bound: at the return of drop(handle) the stream log holds every entry appended before the drop began, then a flush, then the stream's Drop, and nothing is written afterwards; on the forget path the stream is drained, flushed and dropped and the writer thread exits within 3 fake flush intervals after the last handle is gone.");
+    finish(rep, jobs, "Histories of append / clone / drop-clone / flush / drop-handle (also by a panic's unwinding) / shut_down / forget on typed and boxed queues with a producer thread racing the shutdown, all schedules within the preemption bound: at the return of drop(handle) the stream log holds every entry appended before the drop began, then a flush, then the stream's Drop, and nothing is written afterwards; on the forget path the stream is drained, flushed and dropped and the writer thread exits within 3 fake flush intervals after the last handle is gone.");
 }
 
 fn c09() {
